@@ -62,13 +62,14 @@ FileOf(dir, q, slot, arch, shift) ==
 ArchiveOf(dir, arch, q0) ==
   LET shift == (arch \div 2) % 4
       nf    == FilesPerArchive[shift + 1]
-      ver   == arch % 2
+      \* direction 2 also writes V3 headers (68 bytes) over classic tables, HET/BET positions 0
+      ver   == IF dir = 2 /\ arch % 8 \in {2, 5} THEN 2 ELSE arch % 2
   IN  [ id    |-> arch, dir |-> dir, ver |-> ver, shift |-> shift,
         \* direction 2 only (the reference writer's free choices)
         crc   |-> (arch \div 7) % 3 = 1,                          \* direction 1: ArchiveBuilder::generate_crcs(true)
         roomy |-> (arch \div 8) % 2 = 0,
         ndel  |-> (arch \div 3) % 3,
-        hibt  |-> ver = 1 /\ (arch \div 4) % 2 = 0,
+        hibt  |-> ver >= 1 /\ (arch \div 4) % 2 = 0,
         prefix |-> Nth(<<0, 512, 1024, 0>>, arch \div 5),          \* bytes before the MPQ header
         userdata |-> (arch \div 5) % 4 = 2,                      \* ... starting with a user data header 'MPQ\x1B'
         twin  |-> (arch \div 3) % 4 = 1,                          \* a second entry for file 1 with locale 0x409, earlier in the probe chain
